@@ -339,6 +339,17 @@ def houdini(nodes, decls):
             return work, (u_in, u_out), rounds, dropped
 
 
+def body_of(nodes, entry):
+    """indices of the nodes the graph reaches from the entry node `entry`"""
+    seen, todo = set(), [entry]
+    while todo:
+        i = todo.pop()
+        if i not in seen:
+            seen.add(i)
+            todo += [m for m in nodes[i]["nexts"] if m >= 0]
+    return seen
+
+
 def vcs_for(prog_nodes, ghost=None):
     """-> list of (description, node index, query string)"""
     counter = [0]
@@ -373,9 +384,17 @@ def vcs_for(prog_nodes, ghost=None):
             if m < 0:
                 continue
             succ = prog_nodes[m]
-            if succ["kind"] in ("program_entry", "func_entry"):
-                continue
             have = " ".join(t for _, t in gamma(n["rout"], n["mout"], base, u_out[idx])) or "true"
+            if succ["kind"] in ("program_entry", "func_entry"):
+                # an entry node that is also the target of a jump / branch inside the function's own body (a loop back to the
+                # function's label): the same activation goes on, so what leaves the entry node must already hold here.
+                # (Falling or jumping into a function from OUTSIDE its body is a convention violation the tool reports, and
+                # whether that starts a new activation is not for this check to say.)
+                if idx not in body_of(prog_nodes, m):
+                    continue
+                for what, t in gamma(succ["rout"], succ["mout"], base):
+                    out.append(("VC2 edge '%s' -> '%s' (an entry reached by a jump): %s" % (n["text"], succ["text"], what), idx, "(and %s (not %s))" % (have, t)))
+                continue
             for what, t in gamma(succ["rin"], succ["min"], base, u_in[m]):
                 out.append(("VC2 edge '%s' -> '%s': %s" % (n["text"], succ["text"], what), idx, "(and %s (not %s))" % (have, t)))
     return out, decls
@@ -459,11 +478,15 @@ def run(programs, cvc5_crosscheck=True):
     t0 = time.time()
     exe = build()
     os.makedirs(os.path.join(WORK, "e4"), exist_ok=True)
-    inp = os.path.join(WORK, "e4", "programs.txt")
+    inp = os.path.join(WORK, "e4", "programs_%d.txt" % os.getpid())
     with open(inp, "w") as f:
         f.write("\n----\n".join(p["text"].rstrip("\n") for p in programs) + "\n")
     p = subprocess.run([exe, inp], stdout=subprocess.PIPE, stderr=subprocess.PIPE, text=True, timeout=600)
     outs = [json.loads(l) for l in p.stdout.strip().split("\n") if l.strip()]
+    try:
+        os.remove(inp)
+    except OSError:
+        pass
     results, items, meta = [], [], []
     for prog, o in zip(programs, outs):
         r = {"name": prog["name"], "text": prog["text"], "failed": [], "queries": 0, "claims": 0}
